@@ -1,3 +1,429 @@
-(* Encode_proofs.v — lemmas about model/Encode.v and model/CelLit.v (work in progress). *)
+(* Encode_proofs.v — lemmas about model/Encode.v (the repaired encode_cel) and
+   model/CelLit.v (lark/celpy on encoder output): the string encoder is inverted
+   by the scanner + un-escaper, numerals lex as one number token, and the round
+   trip  eval_lit (encode v) = ROk (norm v). *)
 From Koreo Require Import Json Encode CelLit.
+From Coq Require Import Lia Decimal DecimalPos DecimalZ.
+Local Open Scope nat_scope.
 Local Open Scope list_scope.
+
+(* ------------------------------------------------------------------ *)
+(* generic list facts                                                  *)
+(* ------------------------------------------------------------------ *)
+
+Lemma firstn_app_exact {A} (a b : list A) : firstn (List.length a) (a ++ b) = a.
+Proof. induction a as [|x a IH]; simpl; [now destruct b|now rewrite IH]. Qed.
+
+Lemma skipn_app_exact {A} (a b : list A) : skipn (List.length a) (a ++ b) = b.
+Proof. induction a as [|x a IH]; simpl; auto. Qed.
+
+Ltac bytes c := destruct c as [[] [] [] [] [] [] [] []].
+
+(* ------------------------------------------------------------------ *)
+(* the string encoder against scan_str / scan_ml / unescape            *)
+(* ------------------------------------------------------------------ *)
+
+(* one escaped character un-escapes to itself *)
+Lemma unescape_esc_char c t : unescape (esc_char c ++ t) = ucons c (unescape t).
+Proof. bytes c; reflexivity. Qed.
+
+Theorem unescape_escape s : unescape (escape s) = UOk s.
+Proof.
+  induction s as [|c s IH]; [reflexivity|].
+  simpl escape. rewrite unescape_esc_char, IH. reflexivity.
+Qed.
+
+(* the scanner passes over one escaped character *)
+Lemma scan_str_esc_char c t n :
+  scan_str t = Some n -> scan_str (esc_char c ++ t) = Some (List.length (esc_char c) + n).
+Proof. intros H. bytes c; cbn; rewrite H; reflexivity. Qed.
+
+Theorem scan_str_escape s r :
+  scan_str (escape s ++ c_quote :: r) = Some (List.length (escape s)).
+Proof.
+  induction s as [|c s IH]; [reflexivity|].
+  simpl escape. rewrite <- app_assoc. rewrite (scan_str_esc_char c _ _ IH).
+  now rewrite app_length.
+Qed.
+
+(* text without a backslash or control character (the triple-quoted and the
+   plain form are used only for such text) *)
+Definition clean (s : text) : Prop := existsb needs_escape s = false.
+
+Lemma clean_cons c s : clean (c :: s) -> needs_escape c = false /\ clean s.
+Proof. unfold clean. simpl. now intros H%Bool.orb_false_iff. Qed.
+
+Lemma unescape_tq s : clean s -> unescape (tq_body s) = UOk s.
+Proof.
+  induction s as [|c s IH]; [reflexivity|].
+  intros [Hc Hs]%clean_cons. specialize (IH Hs). revert Hc.
+  bytes c; try discriminate; intros _; cbn; rewrite IH; reflexivity.
+Qed.
+
+Lemma scan_ml_q3 r : scan_ml (q3 ++ r) = Some 0.
+Proof. reflexivity. Qed.
+
+Lemma scan_ml_tq s r : clean s -> scan_ml (tq_body s ++ q3 ++ r) = Some (List.length (tq_body s)).
+Proof.
+  induction s as [|c s IH]; [reflexivity|].
+  intros [Hc Hs]%clean_cons. specialize (IH Hs). revert Hc.
+  bytes c; try discriminate; intros _; cbn; cbn in IH; rewrite IH; reflexivity.
+Qed.
+
+(* text with nothing to escape is its own escaped form *)
+Lemma escape_plain s : clean s -> has_quote s = false -> escape s = s.
+Proof.
+  induction s as [|c s IH]; [reflexivity|].
+  intros [Hc Hs]%clean_cons Hq. unfold has_quote in Hq. simpl in Hq.
+  apply Bool.orb_false_iff in Hq as [Hq1 Hq2]. simpl escape. rewrite (IH Hs Hq2).
+  revert Hc Hq1. bytes c; try discriminate; reflexivity.
+Qed.
+
+(* ------------------------------------------------------------------ *)
+(* the lexer on one encoded string                                     *)
+(* ------------------------------------------------------------------ *)
+
+Lemma lex_skip a r : lex (List.length a) (a ++ r) = lex 0 r.
+Proof. induction a as [|c a IH]; simpl; auto. Qed.
+
+Lemma lex_skip_S a c r : lex (S (List.length a)) (a ++ c :: r) = lex 0 r.
+Proof.
+  replace (a ++ c :: r) with ((a ++ [c]) ++ r) by (now rewrite <- app_assoc).
+  replace (S (List.length a)) with (List.length (a ++ [c])) by (rewrite app_length; simpl; lia).
+  apply lex_skip.
+Qed.
+
+(* the token encode_str s lexes to *)
+Definition str_tok (s : text) : token :=
+  if existsb needs_escape s then TStr false (escape s)
+  else if has_quote s then TStr true (tq_body s)
+  else TStr false s.
+
+Definition tok_body (t : token) : text := match t with TStr _ b => b | _ => [] end.
+
+Definition is_delim (c : ascii) : bool :=
+  Ascii.eqb c ","%char || Ascii.eqb c "]"%char || Ascii.eqb c "}"%char || Ascii.eqb c ":"%char.
+
+(* what may follow an encoded value: nothing, or one of  , ] } :  *)
+Definition delim_start (r : text) : bool :=
+  match r with [] => true | c :: _ => is_delim c end.
+
+Lemma esc_char_head c t : exists h tl, esc_char c ++ t = h :: tl /\ Ascii.eqb h c_quote = false.
+Proof. bytes c; cbn; eexists; eexists; split; reflexivity. Qed.
+
+Lemma starts2_head h tl : Ascii.eqb h c_quote = false -> starts2 (h :: tl) = false.
+Proof. intros H. destruct tl; simpl; [reflexivity|now rewrite H]. Qed.
+
+Lemma starts2_escape s r :
+  delim_start r = true -> starts2 (escape s ++ c_quote :: r) = false.
+Proof.
+  intros Hr. destruct s as [|c s].
+  - simpl. destruct r as [|d r]; [reflexivity|]. simpl in Hr.
+    revert Hr. bytes d; try discriminate; reflexivity.
+  - simpl escape. rewrite <- app_assoc.
+    destruct (esc_char_head c (escape s ++ c_quote :: r)) as (h & tl & -> & Hh).
+    now apply starts2_head.
+Qed.
+
+Lemma lex_at_quote r :
+  lex 0 (c_quote :: r) =
+  match lex_string r with Some (tok, n) => lcons tok (lex n r) | None => LexErr end.
+Proof. reflexivity. Qed.
+
+Lemma lex_quoted_escape s r :
+  delim_start r = true ->
+  lex 0 (c_quote :: escape s ++ c_quote :: r) = lcons (TStr false (escape s)) (lex 0 r).
+Proof.
+  intros Hr. rewrite lex_at_quote.
+  unfold lex_string. rewrite (starts2_escape s r Hr), scan_str_escape, firstn_app_exact.
+  now rewrite lex_skip_S.
+Qed.
+
+Lemma lex_tq s r :
+  clean s ->
+  lex 0 (q3 ++ tq_body s ++ q3 ++ r) = lcons (TStr true (tq_body s)) (lex 0 r).
+Proof.
+  intros Hs. change (q3 ++ tq_body s ++ q3 ++ r) with (c_quote :: c_quote :: c_quote :: tq_body s ++ q3 ++ r).
+  rewrite lex_at_quote.
+  unfold lex_string. change (starts2 (c_quote :: c_quote :: tq_body s ++ q3 ++ r)) with true.
+  cbv iota. cbn [skipn].
+  rewrite (scan_ml_tq s r Hs), firstn_app_exact.
+  replace (2 + List.length (tq_body s) + 3) with (List.length ([c_quote; c_quote] ++ tq_body s ++ q3))
+    by (rewrite !app_length; simpl; lia).
+  replace (c_quote :: c_quote :: tq_body s ++ q3 ++ r) with (([c_quote; c_quote] ++ tq_body s ++ q3) ++ r)
+    by (rewrite <- !app_assoc; reflexivity).
+  now rewrite lex_skip.
+Qed.
+
+Lemma quoted_app (a r : text) : (c_quote :: a ++ [c_quote]) ++ r = c_quote :: a ++ c_quote :: r.
+Proof. simpl. now rewrite <- app_assoc. Qed.
+
+(* [lex_encode_str]: an encoded string, followed by a delimiter or nothing,
+   lexes to one string token ... *)
+Theorem lex_encode_str s r :
+  delim_start r = true ->
+  lex 0 (encode_str s ++ r) = lcons (str_tok s) (lex 0 r).
+Proof.
+  intros Hr. unfold encode_str, str_tok.
+  destruct (existsb needs_escape s) eqn:He.
+  - rewrite quoted_app. now apply lex_quoted_escape.
+  - destruct (has_quote s) eqn:Hq.
+    + rewrite <- !app_assoc. now apply lex_tq.
+    + rewrite quoted_app. pose proof (lex_quoted_escape s r Hr) as H.
+      now rewrite (escape_plain s He Hq) in H.
+Qed.
+
+(* ... whose body celstr turns back into exactly the original text *)
+Theorem unescape_str_tok s : unescape (tok_body (str_tok s)) = UOk s.
+Proof.
+  unfold str_tok. destruct (existsb needs_escape s) eqn:He; [apply unescape_escape|].
+  destruct (has_quote s) eqn:Hq; cbn [tok_body].
+  - now apply unescape_tq.
+  - rewrite <- (escape_plain s He Hq) at 1. apply unescape_escape.
+Qed.
+
+(* ------------------------------------------------------------------ *)
+(* numerals lex as one number token                                    *)
+(* ------------------------------------------------------------------ *)
+
+Lemma count_digits_le t : count_digits t <= List.length t.
+Proof. induction t as [|c t IH]; simpl; [lia|destruct (is_digit c); simpl; lia]. Qed.
+
+Lemma count_digits_app t r : count_digits r = 0 -> count_digits (t ++ r) = count_digits t.
+Proof.
+  intros Hr. induction t as [|c t IH]; simpl; [exact Hr|].
+  destruct (is_digit c); [now rewrite IH|reflexivity].
+Qed.
+
+Lemma skipn_app_le {A} n (t r : list A) : n <= List.length t -> skipn n (t ++ r) = skipn n t ++ r.
+Proof.
+  intros H. rewrite skipn_app. replace (n - List.length t) with 0 by lia. reflexivity.
+Qed.
+
+Lemma skipn_nil_len {A} n (t : list A) : n <= List.length t -> skipn n t = [] -> List.length t = n.
+Proof. intros H E. pose proof (skipn_length n t) as L. rewrite E in L. simpl in L. lia. Qed.
+
+Lemma skipn_cons_len {A} n (t : list A) c t' :
+  skipn n t = c :: t' -> List.length t = n + S (List.length t').
+Proof.
+  intros E. pose proof (skipn_length n t) as L. rewrite E in L. simpl in L.
+  assert (n <= List.length t).
+  { destruct (Nat.le_gt_cases n (List.length t)); [assumption|].
+    rewrite skipn_all2 in E by lia. discriminate. }
+  lia.
+Qed.
+
+Lemma scan_exp_app t r L :
+  scan_exp t = Some L -> count_digits r = 0 -> scan_exp (t ++ r) = Some L.
+Proof.
+  intros H Hr. destruct t as [|c [|s r1]]; simpl in *; try discriminate.
+  - destruct (is_e c); discriminate.
+  - destruct (is_e c); [|discriminate].
+    destruct (is_sign s).
+    + now rewrite count_digits_app.
+    + change (s :: r1 ++ r) with ((s :: r1) ++ r). now rewrite count_digits_app.
+Qed.
+
+(* facts about what follows a value *)
+Lemma delim_digits r : delim_start r = true -> count_digits r = 0.
+Proof. destruct r as [|c r]; [reflexivity|]. simpl. bytes c; try discriminate; reflexivity. Qed.
+
+Lemma delim_exp r : delim_start r = true -> scan_exp r = None.
+Proof. destruct r as [|c r]; [reflexivity|]. simpl. bytes c; try discriminate; reflexivity. Qed.
+
+Lemma delim_ident r : delim_start r = true -> count_ident r = 0.
+Proof. destruct r as [|c r]; [reflexivity|]. simpl. bytes c; try discriminate; reflexivity. Qed.
+
+Lemma delim_follow r : delim_start r = true -> bad_follow (nth_error r 0) = false.
+Proof. destruct r as [|c r]; [reflexivity|]. simpl. bytes c; try discriminate; reflexivity. Qed.
+
+Lemma delim_nodot r :
+  delim_start r = true -> match r with c :: _ => Ascii.eqb c c_dot = false | [] => True end.
+Proof. destruct r as [|c r]; [trivial|]. simpl. bytes c; try discriminate; reflexivity. Qed.
+
+Lemma exp_tail_ok_inv t :
+  exp_tail_ok t = true -> t = [] \/ scan_exp t = Some (List.length t).
+Proof.
+  destruct t as [|c t]; [now left|]. unfold exp_tail_ok. right.
+  destruct (scan_exp (c :: t)) as [n|]; [|discriminate].
+  apply Nat.eqb_eq in H. now subst.
+Qed.
+
+(* the number scanner consumes exactly a numeral that is followed by a delimiter *)
+Lemma scan_unsigned_numeral t1 k r :
+  numeral_unsigned t1 = Some k -> delim_start r = true ->
+  scan_unsigned (t1 ++ r) = Some (k, List.length t1).
+Proof.
+  intros Hk Hr.
+  pose proof (delim_digits r Hr) as Hd. pose proof (delim_exp r Hr) as He.
+  pose proof (delim_nodot r Hr) as Hn.
+  unfold numeral_unsigned in Hk. unfold scan_unsigned.
+  rewrite (count_digits_app t1 r Hd).
+  pose proof (count_digits_le t1) as Hle.
+  rewrite (skipn_app_le _ t1 r Hle).
+  destruct (count_digits t1) as [|n'] eqn:En; [discriminate|].
+  destruct (skipn (S n') t1) as [|c t3] eqn:E2.
+  - (* all digits: INT_LIT *)
+    injection Hk as <-. pose proof (skipn_nil_len _ _ Hle E2) as HL.
+    rewrite !app_nil_l. rewrite He.
+    destruct r as [|d r']; [now rewrite HL|]. rewrite Hn. now rewrite HL.
+  - pose proof (skipn_cons_len _ _ _ _ E2) as HL.
+    rewrite <- !app_comm_cons. destruct (Ascii.eqb c c_dot) eqn:Ec.
+    + (* fraction *)
+      rewrite (count_digits_app t3 r Hd).
+      pose proof (count_digits_le t3) as Hle3.
+      rewrite (skipn_app_le _ t3 r Hle3).
+      destruct (count_digits t3) as [|k'] eqn:Ek; [discriminate|].
+      destruct (exp_tail_ok (skipn (S k') t3)) eqn:Et; [|discriminate].
+      injection Hk as <-.
+      destruct (exp_tail_ok_inv _ Et) as [E4|E4].
+      * rewrite E4. rewrite !app_nil_l. rewrite He.
+        pose proof (skipn_nil_len _ _ Hle3 E4). f_equal. f_equal. lia.
+      * rewrite (scan_exp_app _ r _ E4 Hd).
+        pose proof (skipn_length (S k') t3). f_equal. f_equal. lia.
+    + (* exponent only *)
+      destruct (exp_tail_ok (c :: t3)) eqn:Et; [|discriminate].
+      injection Hk as <-.
+      destruct (exp_tail_ok_inv _ Et) as [E4|E4]; [discriminate|].
+      change (c :: t3 ++ r) with ((c :: t3) ++ r).
+      rewrite (scan_exp_app _ r _ E4 Hd). f_equal. f_equal. simpl. lia.
+Qed.
+
+Lemma numeral_nonempty t k : numeral_kind t = Some k -> t <> [].
+Proof. intros H ->. discriminate. Qed.
+
+Lemma scan_num_numeral t k r :
+  numeral_kind t = Some k -> delim_start r = true ->
+  scan_num (t ++ r) = Some (k, List.length t).
+Proof.
+  intros Hk Hr. unfold numeral_kind in Hk.
+  destruct t as [|c t]; [discriminate|]. rewrite <- app_comm_cons. unfold scan_num.
+  simpl strip_minus in Hk.
+  destruct (Ascii.eqb c c_minus).
+  - now rewrite (scan_unsigned_numeral t k r Hk Hr).
+  - rewrite app_comm_cons. now rewrite (scan_unsigned_numeral _ k r Hk Hr).
+Qed.
+
+(* the first character of a numeral sends the lexer into its number branch *)
+Lemma numeral_head t k :
+  numeral_kind t = Some k ->
+  exists c t', t = c :: t' /\ (is_digit c = true \/ c = c_minus).
+Proof.
+  unfold numeral_kind, numeral_unsigned. destruct t as [|c t]; [discriminate|].
+  intros H. exists c, t. split; [reflexivity|]. simpl strip_minus in H.
+  destruct (Ascii.eqb c c_minus) eqn:Ec; [right; now apply Ascii.eqb_eq|left].
+  simpl in H. destruct (is_digit c); [reflexivity|discriminate].
+Qed.
+
+Lemma lex_at_number c r :
+  is_digit c = true \/ c = c_minus ->
+  lex 0 (c :: r) =
+  match scan_num (c :: r) with
+  | Some (k, len) =>
+      if bad_follow (nth_error (c :: r) len) then LexOOF
+      else lcons (num_tok k (firstn len (c :: r))) (lex (len - 1) r)
+  | None => LexOOF
+  end.
+Proof.
+  intros [H| ->]; [|reflexivity]. revert H. bytes c; try discriminate; reflexivity.
+Qed.
+
+Theorem lex_numeral t k r :
+  numeral_kind t = Some k -> delim_start r = true ->
+  lex 0 (t ++ r) = lcons (num_tok k t) (lex 0 r).
+Proof.
+  intros Hk Hr. destruct (numeral_head t k Hk) as (c & t' & -> & Hc).
+  rewrite <- app_comm_cons. rewrite (lex_at_number c _ Hc).
+  rewrite !app_comm_cons.
+  rewrite (scan_num_numeral _ k r Hk Hr).
+  rewrite nth_error_app2 by lia. rewrite Nat.sub_diag, (delim_follow r Hr).
+  rewrite firstn_app_exact. simpl List.length. rewrite Nat.sub_succ, Nat.sub_0_r.
+  now rewrite lex_skip.
+Qed.
+
+(* ------------------------------------------------------------------ *)
+(* printing an integer                                                 *)
+(* ------------------------------------------------------------------ *)
+
+Lemma text_of_uint_digits u : forallb is_digit (text_of_uint u) = true.
+Proof. induction u; simpl; auto. Qed.
+
+Lemma count_digits_all t : forallb is_digit t = true -> count_digits t = List.length t.
+Proof.
+  induction t as [|c t IH]; [reflexivity|]. simpl. intros [Hc Ht]%Bool.andb_true_iff.
+  now rewrite Hc, IH.
+Qed.
+
+Ltac code_num :=
+  repeat match goal with
+  | |- context [Z.of_N (code ?c)] =>
+      let v := eval vm_compute in (Z.of_N (code c)) in change (Z.of_N (code c)) with v
+  end.
+
+Lemma digits_val_acc u acc :
+  digits_val (Zpos acc) (text_of_uint u) = Zpos (Pos.of_uint_acc u acc).
+Proof.
+  revert acc. induction u; intros acc; cbn [text_of_uint digits_val Pos.of_uint_acc];
+    [reflexivity|..]; rewrite <- IHu; f_equal; code_num; lia.
+Qed.
+
+Lemma digits_val_uint u : digits_val 0 (text_of_uint u) = Z.of_N (Pos.of_uint u).
+Proof.
+  induction u; cbn [text_of_uint digits_val Pos.of_uint]; [reflexivity|..]; code_num.
+  - exact IHu.
+  - apply (digits_val_acc u 1).
+  - apply (digits_val_acc u 2).
+  - apply (digits_val_acc u 3).
+  - apply (digits_val_acc u 4).
+  - apply (digits_val_acc u 5).
+  - apply (digits_val_acc u 6).
+  - apply (digits_val_acc u 7).
+  - apply (digits_val_acc u 8).
+  - apply (digits_val_acc u 9).
+Qed.
+
+Lemma uint_head_not_minus u : strip_minus (text_of_uint u) = text_of_uint u.
+Proof. destruct u; reflexivity. Qed.
+
+Lemma int_of_text_uint u : int_of_text (text_of_uint u) = digits_val 0 (text_of_uint u).
+Proof. destruct u; reflexivity. Qed.
+
+Lemma to_int_cases z :
+  (exists u, Z.to_int z = Pos u /\ u <> Nil) \/ (exists u, Z.to_int z = Neg u /\ u <> Nil).
+Proof.
+  destruct z as [|p|p]; simpl.
+  - left. exists (D0 Nil). split; [reflexivity|discriminate].
+  - left. exists (Pos.to_uint p). split; [reflexivity|apply Unsigned.to_uint_nonnil].
+  - right. exists (Pos.to_uint p). split; [reflexivity|apply Unsigned.to_uint_nonnil].
+Qed.
+
+Theorem print_Z_value z : int_of_text (print_Z z) = z.
+Proof.
+  pose proof (DecimalZ.of_to z) as H. unfold print_Z.
+  destruct (Z.to_int z) as [u|u]; simpl in H.
+  - rewrite int_of_text_uint, digits_val_uint. exact H.
+  - unfold int_of_text. change (Ascii.eqb c_minus c_minus) with true. cbv iota.
+    rewrite digits_val_uint. exact H.
+Qed.
+
+Lemma numeral_unsigned_digits t :
+  t <> [] -> forallb is_digit t = true -> numeral_unsigned t = Some KInt.
+Proof.
+  intros Hne Hd. unfold numeral_unsigned. rewrite (count_digits_all t Hd).
+  destruct t as [|c t]; [congruence|]. cbn [List.length].
+  change (S (List.length t)) with (List.length (c :: t)).
+  now rewrite skipn_all.
+Qed.
+
+Lemma text_of_uint_nonnil u : u <> Nil -> text_of_uint u <> [].
+Proof. destruct u; simpl; congruence. Qed.
+
+Theorem print_Z_numeral z : numeral_kind (print_Z z) = Some KInt.
+Proof.
+  unfold print_Z, numeral_kind.
+  destruct (to_int_cases z) as [(u & -> & Hu)|(u & -> & Hu)].
+  - rewrite uint_head_not_minus.
+    apply numeral_unsigned_digits; [now apply text_of_uint_nonnil|apply text_of_uint_digits].
+  - simpl strip_minus.
+    apply numeral_unsigned_digits; [now apply text_of_uint_nonnil|apply text_of_uint_digits].
+Qed.
